@@ -35,6 +35,7 @@ class Builder:
         self.extra_assumptions = []   # callables(ctx, vc) -> list of smt strings, or plain strings
         self.bounds = {}
         self.phi_names = []
+        self.exp_aliases = []     # (scalar variable name, T name, scale): exp(scale*var) = T (see symdom.Ctx.exp_subst)
 
     def _add(self, name, kind, shape, value=None):
         assert all(i.name != name for i in self.inputs), name
@@ -49,6 +50,11 @@ class Builder:
     def phi_slots(self, n):
         """reserve n field generators for values of the standard normal cdf (see gtverif/phi.py)"""
         self.phi_names = [f"PHI_{k}" for k in range(n)]
+
+    def exp_alias(self, varname, tname, scale=1):
+        """declare T = exp(scale * var) as an independent positive field generator (var: name of one scalar
+        entry of a free/pos input, e.g. 'w0_0')"""
+        self.exp_aliases.append((varname, tname, Fraction(scale)))
 
     def assume(self, smt_fn):
         """extra assumption: callable(ctx, vc) -> SMT-LIB boolean term over the declared variables"""
@@ -97,6 +103,8 @@ class Builder:
     # ---- materialisation
     def names(self):
         names, positive = list(self.phi_names), []
+        for _v, t, _s in self.exp_aliases:
+            names.append(t); positive.append(t)
         for i in self.inputs:
             if i.kind in ("free", "pos"):
                 for idx in np.ndindex(*i.shape):
@@ -251,6 +259,12 @@ def run_case(case, seed=0, solver_timeout_ms=60000, cvc5=False, selfcheck_points
     I = b.build(ctx)
     order = [i.name for i in b.inputs]
     hooks = dict(case.hooks or {})
+    for v, t, sc in b.exp_aliases:
+        assert v in names, v
+        ctx.exp_subst[v] = (t, sc)
+        ctx.env_fixups.append(lambda env, v=v, t=t, sc=sc: env.__setitem__(t, math.exp(float(sc) * env[v])))
+        if v in ctx.positive:
+            ctx.extra_smt.append(f"(> {t} 1.0)" if sc > 0 else f"(< {t} 1.0)")
     if b.phi_names:
         from .phi import PhiTable
         ctx.phi = PhiTable(ctx, b.phi_names)
@@ -405,6 +419,30 @@ def run_case(case, seed=0, solver_timeout_ms=60000, cvc5=False, selfcheck_points
         return res
     ineqs = [c for c in cl if c[0] == "GE0"]
     cl = [c for c in cl if c[0] != "GE0"]
+    # a non-finite value (exact 0/0, 1/0 in the real code's arithmetic) where the property expects a finite one
+    from .symdom import Ext
+    nonfin = []
+    for label, lhs, rhs in cl:
+        L, Rr = _flat(lhs), _flat(rhs)
+        if len(Rr) == 1 and len(L) > 1:
+            Rr = Rr * len(L)
+        for k, (x, y) in enumerate(zip(L, Rr)):
+            if isinstance(x, Ext) != isinstance(y, Ext):
+                nonfin.append(f"{label}#{k}")
+    if nonfin:
+        rng = random.Random(seed + 17)
+        best = None
+        for _ in range(2):
+            best = _replay(case, I, gen_env(case, ctx, rng))
+            if best.get("reproduced"):
+                break
+        res["replay"] = best
+        res["violated"] = [f"nan:{l}" for l in nonfin][:6]
+        if best.get("reproduced"):
+            res.update(status="violation", detail=f"real code yields a non-finite value where the property expects a finite one ({nonfin[0]}); replay: {best.get('worst_label')} lhs={best.get('lhs')} rhs={best.get('rhs')}")
+        else:
+            res.update(status="inconclusive", detail=f"interpreter produced a non-finite value at {nonfin[0]} but the float64 run is finite and agrees")
+        return res
     for label, lhs, rhs in cl:
         L, Rr = _flat(lhs), _flat(rhs)
         if len(L) != len(Rr):
